@@ -83,7 +83,7 @@ inline std::string bad_name(vf::Chooser& c) {
   return s;
 }
 
-inline std::string mutate_file(vf::Chooser& c, const std::string& valid, unsigned size, Stats& st) {
+inline std::string mutate_file(vf::Chooser& c, const std::string& valid, unsigned size, Stats& st, int first_kind = -1) {
   Node root; std::string err;
   std::string out;
   if (!cref::parse_all(valid, root, err)) { st.kinds["unparsed_seed"]++; out = valid; }
@@ -93,7 +93,7 @@ inline std::string mutate_file(vf::Chooser& c, const std::string& valid, unsigne
     for (unsigned e = 0; e < nedits; e++) {
       std::vector<Node*> all, ints, strs, conts;
       collect(root, all, ints, strs, conts);
-      uint64_t kind = c.range(0, 15);
+      uint64_t kind = (e == 0 && first_kind >= 0) ? (uint64_t)first_kind : c.range(0, 15);
       switch (kind) {
         case 0: {  // declared length / count of a string or container
           std::vector<Node*> cand = strs; cand.insert(cand.end(), conts.begin(), conts.end());
@@ -238,8 +238,9 @@ inline std::string mutate_file(vf::Chooser& c, const std::string& valid, unsigne
           for (Node* n : conts) if (n->major == cref::MAP) maps.push_back(n);
           if (maps.empty()) break;
           Node* p = maps[c.range(0, maps.size() - 1)];
-          uint64_t m = c.range(0, 4);
-          uint64_t len = m == 0 ? 0xFFFFFFFFFFFFFFFFull - c.range(0, 40) : m == 1 ? 0x8000000000000000ull + c.range(0, 3) : m == 2 ? 0x7FFFFFFFFFFFFFFFull - c.range(0, 3) : m == 3 ? 0xFFFFFFFFFFFF0000ull + c.range(0, 0xFFFF) : c.uint_bits(64) | 0x8000000000000000ull;
+          uint64_t m = c.range(0, 5) % 5;
+          // m == 0: lengths for which position + head + length wraps around 2^64 to a place at or shortly before the item (2^64 - d, d small)
+          uint64_t len = m == 0 ? 0xFFFFFFFFFFFFFFFFull - (c.coin() ? c.range(8, 12) : c.range(0, 40)) : m == 1 ? 0x8000000000000000ull + c.range(0, 3) : m == 2 ? 0x7FFFFFFFFFFFFFFFull - c.range(0, 3) : m == 3 ? 0xFFFFFFFFFFFF0000ull + c.range(0, 0xFFFF) : c.uint_bits(64) | 0x8000000000000000ull;
           Node v; v.major = RAW;
           uint8_t major = (uint8_t)c.pick<int>({cref::BSTR, cref::TSTR, cref::BSTR, cref::TSTR, cref::ARR, cref::MAP});
           cref::put_head(v.str, major, len, 27);
